@@ -7,6 +7,7 @@ package saml2
 
 import (
 	"bytes"
+	"encoding/xml"
 	"html"
 	"net/url"
 	"crypto/tls"
@@ -132,7 +133,15 @@ func vTimeStr(name string) string {
 		return "not-a-timestamp:" + s
 	}
 	ns := vxI64(n + ".ns")
-	return time.Unix(0, ns).UTC().Format(time.RFC3339Nano)
+	// the same instant in different RFC 3339 spellings (zone offsets, fractional seconds)
+	t := time.Unix(0, ns)
+	switch len(n) % 3 {
+	case 1:
+		return t.In(time.FixedZone("", 2*3600)).Format(time.RFC3339Nano)
+	case 2:
+		return t.In(time.FixedZone("", -5*3600-1800)).Format("2006-01-02T15:04:05.000000000Z07:00")
+	}
+	return t.UTC().Format(time.RFC3339Nano)
 }
 
 func vInstant(name string) time.Time { return time.Unix(0, vxI64(vxFresh(name))).UTC() }
@@ -1217,3 +1226,21 @@ func vxDeflateStartingWith(first byte, payload []byte) []byte {
 	}
 	return w.out
 }
+
+// vMarshalRoundTrip (native): v marshals to well-formed XML that unmarshals into out.
+func vMarshalRoundTrip(v interface{}, out interface{}) bool {
+	b, err := xml.Marshal(v)
+	if err != nil {
+		vx.notes = append(vx.notes, "marshal: "+err.Error())
+		return false
+	}
+	if err := xml.Unmarshal(b, out); err != nil {
+		vx.notes = append(vx.notes, "unmarshal: "+err.Error())
+		return false
+	}
+	return true
+}
+
+// natively the hash / canonicaliser really used are checked by verifying the signature (vSignatureCovers)
+func vDigestHashIs(k int, h crypto.Hash) bool            { return true }
+func vDigestCanonIs(k int, c dsig.Canonicalizer) bool   { return true }
